@@ -39,7 +39,17 @@ def netND : P (Net Rat) := do
 def optNet : P (Option (Net Rat)) := do
   if (← nat) = 0 then pure none else pure (some (← net))
 
-def userFns : P (List (String × UFun Rat)) := many (do let n ← next; let u ← ufun; pure (n, u))
+/-- entries of the data-function dict: `name fn <ufun>` (a callable) or `name tab <table>` (a tensor of values,
+    one row per point: it is what it is, on any points) -/
+def userFns : P (List (String × UFun Rat) × List (String × DataFn Rat)) := do
+  let es ← many (do
+    let n ← next
+    match (← next) with
+    | "fn" => do pure (n, Sum.inl (← ufun))
+    | "tab" => do pure (n, Sum.inr (DataFn.pre (← table)))
+    | t => throw s!"entry:{t}" : P (String × Sum (UFun Rat) (DataFn Rat)))
+  pure (es.filterMap (fun e => match e.2 with | .inl u => some (e.1, u) | .inr _ => none),
+        es.filterMap (fun e => match e.2 with | .inr d => some (e.1, d) | .inl _ => none))
 
 /-- `<static 0|1> <resample interval: inf|k> <kept>`: `kept` = the point set a never-resampling static sampler
     keeps (by value).  The model pre-evaluates every data function on THIS set — how many times the sampler was
@@ -58,6 +68,13 @@ def preSets : P (Option (List (List Rat))) := do
 /-- one copy of the kept set per data function (the shape `setupDataFns` takes) -/
 def perFn (pre : Option (List (List Rat))) (ufs : List (String × UFun Rat)) : Option (List (List (List Rat))) :=
   pre.map fun kept => ufs.map fun _ => kept
+
+/-- callables go through `_setup_data_functions` (pre-evaluated on the kept set of a never-resampling static sampler);
+    tensor entries stay the tables they are -/
+def setupAll (sp : SpaceL) (pre : Option (List (List Rat))) (e : List (String × UFun Rat) × List (String × DataFn Rat)) :
+    Except Err (List (String × DataFn Rat)) := do
+  let dfs ← setupDataFns sp (perFn pre e.1) e.1
+  pure (dfs ++ e.2)
 
 def errKind : P ErrKind := do
   match (← next) with
@@ -94,7 +111,7 @@ def step (line : String) : String :=
       let sp ← space; let rows ← table; let n ← optNet; let res ← ufun; let ufs ← userFns; let pre ← preSets
       let ps ← named; let ek ← errKind; let rk ← redKind
       return showResult (do
-        let dfs ← setupDataFns sp (perFn pre ufs) ufs
+        let dfs ← setupAll sp pre ufs
         let c : SMCond Rat := { net := n, resid := res, dataFns := dfs, params := ps, err := ek, red := rk }
         let bound ← rows.zipIdx.mapM fun ri => do
           let a ← rowArgs c sp rows.length ri.2 ri.1
@@ -129,8 +146,8 @@ def step (line : String) : String :=
       let n ← netND; let res ← ufun; let ufs ← userFns; let preL ← preSets; let preR ← preSets
       let ps ← named; let ek ← errKind; let rk ← redKind
       return showResult (do
-        let ld ← setupDataFns (psp ++ bsp) (perFn preL ufs) ufs
-        let rd ← setupDataFns (psp ++ bsp) (perFn preR ufs) ufs
+        let ld ← setupAll (psp ++ bsp) preL ufs
+        let rd ← setupAll (psp ++ bsp) preR ufs
         let c : PerCond Rat := { net := n, resid := res, perSpace := psp, leftData := ld, rightData := rd,
                                  params := ps, err := ek, red := rk }
         let bound ← rows.zipIdx.mapM fun ri => do
@@ -147,7 +164,7 @@ def step (line : String) : String :=
                       let sp ← space; let g ← ufun; pure (some (sp, g)) : P (Option (SpaceL × UFun Rat)))
       let res ← ufun; let ufs ← userFns; let pre ← preSets; let ps ← named; let old ← bool
       return showResult (do
-        let dfs ← setupDataFns xsp (perFn pre ufs) ufs
+        let dfs ← setupAll xsp pre ufs
         let c : DONCond Rat := { net := n, fsOut := fso, resid := res, dataFns := dfs, params := ps,
                                  sumOverLocations := old }
         let bound ← prows.mapM fun prow => xrows.zipIdx.mapM fun xj => do
@@ -161,7 +178,7 @@ def step (line : String) : String :=
       let n ← netND; let res ← ufun; let ufs ← userFns; let pre ← preSets
       let ps ← named; let ek ← errKind; let rk ← redKind
       return showResult (do
-        let dfs ← setupDataFns sp (perFn pre ufs) ufs
+        let dfs ← setupAll sp pre ufs
         let c : IntCond Rat := { net := n, resid := res, dataFns := dfs, params := ps, err := ek, red := rk }
         let bound ← rows.zipIdx.mapM fun ri => do
           let a ← intRowArgs c sp isp rows.length ri.2 ri.1 irows
@@ -173,7 +190,7 @@ def step (line : String) : String :=
       let sp ← space; let rows ← table; let n ← net; let res ← ufun; let ufs ← userFns; let pre ← preSets
       let ps ← named; let ek ← errKind; let ws ← many rat
       return showResult (do
-        let dfs ← setupDataFns sp (perFn pre ufs) ufs
+        let dfs ← setupAll sp pre ufs
         let c : SMCond Rat := { net := some n, resid := res, dataFns := dfs, params := ps, err := ek, red := .mean }
         let bound ← rows.zipIdx.mapM fun ri => do
           let a ← rowArgs c sp rows.length ri.2 ri.1
